@@ -28,6 +28,7 @@ import (
 	"net/http"
 	"net/http/httputil"
 	"net/textproto"
+	"net/url"
 	"runtime"
 	"strconv"
 	"strings"
@@ -466,9 +467,23 @@ func (o *Origin) serve(c *vh.PipeConn, addr string) {
 		if err != nil {
 			return
 		}
+		xid := req.Header.Get("X-Vh-Id")
+		if req.Method == "CONNECT" {
+			// the origin plays a downstream proxy: accept the tunnel, carry nothing
+			a := Arrival{Seq: NextSeq(), XID: xid, TLS: isTLS, Method: req.Method, Target: req.RequestURI, Host: req.Host,
+				Addr: addr, Warning: append([]string(nil), req.Header["Warning"]...), Header: req.Header.Clone()}
+			o.mu.Lock()
+			o.arrivals = append(o.arrivals, a)
+			o.conns["x:"+xid] = append(o.conns["x:"+xid], c)
+			o.mu.Unlock()
+			if _, err := io.WriteString(rw, "HTTP/1.1 200 Connection established\r\n\r\n"); err != nil {
+				return
+			}
+			io.Copy(io.Discard, br)
+			return
+		}
 		body, _ := io.ReadAll(req.Body)
 		atomic.AddInt64(&o.bytes, int64(len(body))+1)
-		xid := req.Header.Get("X-Vh-Id")
 		a := Arrival{Seq: NextSeq(), XID: xid, TLS: isTLS, Method: req.Method, Target: req.RequestURI, Host: req.Host,
 			Addr: addr, Warning: append([]string(nil), req.Header["Warning"]...), Header: req.Header.Clone()}
 		o.mu.Lock()
@@ -555,6 +570,8 @@ type Action struct {
 	// an aggregating fifo.Group produces); "quoted" a text with double quotes,
 	// a backslash and a tab.
 	ErrKind string
+	// Unflushed: a hijacking modifier leaves unflushed bytes in the handed-over bufio.Writer.
+	Unflushed bool
 	// API marks the exchange as a request to the proxy's API (Context.APIRequest)
 	// in the request modifier, as api.Forwarder does.
 	API      bool
@@ -568,6 +585,9 @@ func NewAction() *Action { return &Action{Returned: make(chan struct{})} }
 
 // HijackObs is what the hijacking modifier observed.
 type HijackObs struct {
+	// Unflushed (from the spec): the hijacker leaves bytes in the
+	// bufio.Writer it was handed without flushing them before it returns.
+	Unflushed bool
 	Side      string
 	Err       string // error of Session.Hijack
 	ConnType  string
@@ -602,6 +622,7 @@ type Call struct {
 	ReqWarnings  []string // Warning values on the request as seen at entry
 	PrevCtxLive  string   // xid of an earlier request of the connection whose context was still retrievable
 	Hij          *HijackObs
+	Gen          int // generation of the modifier pair that was called (see Recorder.Mod)
 }
 
 // Recorder is installed as request and response modifier.
@@ -671,8 +692,8 @@ func (rc *Recorder) Len() int {
 	return len(rc.calls)
 }
 
-func (rc *Recorder) enter(side string, req *http.Request, status int) *Call {
-	c := &Call{Side: side, Req: req, Status: status}
+func (rc *Recorder) enter(side string, req *http.Request, status int, gen int) *Call {
+	c := &Call{Side: side, Req: req, Status: status, Gen: gen}
 	if req != nil {
 		c.XID = req.Header.Get("X-Vh-Id")
 		c.Method = req.Method
@@ -726,7 +747,7 @@ func (rc *Recorder) exit(c *Call) {
 }
 
 func (rc *Recorder) hijack(c *Call, a *Action, side string) {
-	h := &HijackObs{Side: side}
+	h := &HijackObs{Side: side, Unflushed: a.Unflushed}
 	if c.Sess == nil {
 		h.Err = "no session reachable from the request's context"
 	} else {
@@ -751,9 +772,31 @@ func (rc *Recorder) hijack(c *Call, a *Action, side string) {
 	rc.mu.Unlock()
 }
 
+// Mod returns a modifier pair (request and response side) that records into
+// rc and tags its calls with generation gen. Installing Mod(2) with
+// Proxy.SetRequestModifier / SetResponseModifier replaces Mod(1).
+func (rc *Recorder) Mod(gen int) *GenMod { return &GenMod{rc: rc, gen: gen} }
+
+// GenMod is one generation of the recording modifier.
+type GenMod struct {
+	rc  *Recorder
+	gen int
+}
+
 // ModifyRequest implements martian.RequestModifier.
-func (rc *Recorder) ModifyRequest(req *http.Request) error {
-	c := rc.enter("req", req, 0)
+func (m *GenMod) ModifyRequest(req *http.Request) error { return m.rc.modifyRequest(req, m.gen) }
+
+// ModifyResponse implements martian.ResponseModifier.
+func (m *GenMod) ModifyResponse(res *http.Response) error { return m.rc.modifyResponse(res, m.gen) }
+
+// ModifyRequest implements martian.RequestModifier (generation 1).
+func (rc *Recorder) ModifyRequest(req *http.Request) error { return rc.modifyRequest(req, 1) }
+
+// ModifyResponse implements martian.ResponseModifier (generation 1).
+func (rc *Recorder) ModifyResponse(res *http.Response) error { return rc.modifyResponse(res, 1) }
+
+func (rc *Recorder) modifyRequest(req *http.Request, gen int) error {
+	c := rc.enter("req", req, 0, gen)
 	a := rc.action(c.XID)
 	var err error
 	if a != nil {
@@ -780,9 +823,8 @@ func (rc *Recorder) ModifyRequest(req *http.Request) error {
 	return err
 }
 
-// ModifyResponse implements martian.ResponseModifier.
-func (rc *Recorder) ModifyResponse(res *http.Response) error {
-	c := rc.enter("res", res.Request, res.StatusCode)
+func (rc *Recorder) modifyResponse(res *http.Response, gen int) error {
+	c := rc.enter("res", res.Request, res.StatusCode, gen)
 	a := rc.action(c.XID)
 	var err error
 	if a != nil {
@@ -885,7 +927,17 @@ type RigOpts struct {
 	// header-injecting wrappers, hands a clone of the request to the
 	// *http.Transport it owns (so the response's Request is the clone).
 	RoundTripper string
+	// Downstream routes blind CONNECTs through a downstream proxy
+	// (Proxy.SetDownstreamProxy); the harness origin plays that proxy.
+	Downstream bool
+	// ShapeLatency / ShapeBitrate configure a "shaped" listener (SetLatency,
+	// SetReadBitrate, SetWriteBitrate); zero values leave the defaults.
+	ShapeLatency time.Duration
+	ShapeBitrate int64
 }
+
+// DownstreamHost is the authority of the harness's downstream proxy.
+const DownstreamHost = "downstream." + Domain + ":3128"
 
 // cloneRT obeys the RoundTripper contract ("must not modify the request"): it
 // works on a shallow copy with its own header map and delegates.
@@ -941,8 +993,11 @@ func NewRig(ca *CA, o RigOpts) (*Rig, error) {
 		p.SetRoundTripper(g.tr)
 	}
 	p.SetDial(g.O.Dial)
-	p.SetRequestModifier(g.Rec)
-	p.SetResponseModifier(g.Rec)
+	if o.Downstream {
+		p.SetDownstreamProxy(&url.URL{Scheme: "http", Host: DownstreamHost})
+	}
+	p.SetRequestModifier(g.Rec.Mod(1))
+	p.SetResponseModifier(g.Rec.Mod(1))
 	if o.MITM || o.Listener == "tls" {
 		p.SetMITM(ca.MC)
 	}
@@ -950,13 +1005,29 @@ func NewRig(ca *CA, o RigOpts) (*Rig, error) {
 	var outer net.Listener = l
 	switch o.Listener {
 	case "shaped":
-		outer = trafficshape.NewListener(l)
+		tsl := trafficshape.NewListener(l)
+		if o.ShapeLatency > 0 {
+			tsl.SetLatency(o.ShapeLatency)
+		}
+		if o.ShapeBitrate > 0 {
+			tsl.SetReadBitrate(o.ShapeBitrate)
+			tsl.SetWriteBitrate(o.ShapeBitrate)
+		}
+		outer = tsl
 	case "tls":
 		outer = tls.NewListener(l, ca.MC.TLS())
 	}
 	g.outer = outer
 	go func() { g.served <- p.Serve(outer) }()
 	return g, nil
+}
+
+// SwapModifiers installs generation gen of the recording modifier pair through
+// the proxy's public setters.
+func (g *Rig) SwapModifiers(gen int) {
+	m := g.Rec.Mod(gen)
+	g.P.SetRequestModifier(m)
+	g.P.SetResponseModifier(m)
 }
 
 // Activity is the progress fingerprint for vh.Await.
@@ -1110,8 +1181,46 @@ func IsWatchdog(err error) bool {
 
 // StartTLS performs the client handshake on the connection.
 func (c *Client) StartTLS(serverName string, roots *x509.CertPool) error {
+	return c.StartTLSFrag(serverName, roots, 0)
+}
+
+// fragConn splits the first Write: first bytes, then - once the proxy has
+// consumed them - the rest.
+type fragConn struct {
+	net.Conn
+	c     *Client
+	first int
+	done  bool
+}
+
+func (f *fragConn) Write(p []byte) (int, error) {
+	if f.done || f.first <= 0 || len(p) <= f.first {
+		f.done = true
+		return f.Conn.Write(p)
+	}
+	f.done = true
+	n, err := f.Conn.Write(p[:f.first])
+	if err != nil {
+		return n, err
+	}
+	// wait (condition, watchdog only) until the proxy has read the fragment on its own
+	deadline := time.Now().Add(Watchdog)
+	for f.c.Srv.RdBytes() != f.c.SentRaw() && !f.c.Srv.Closed() && time.Now().Before(deadline) {
+		time.Sleep(50 * time.Microsecond)
+	}
+	m, err := f.Conn.Write(p[f.first:])
+	return n + m, err
+}
+
+// StartTLSFrag is StartTLS with the first TLS record (the ClientHello)
+// delivered in two pieces: frag bytes, then the rest after the proxy has read
+// the first piece (frag 0 = one piece).
+func (c *Client) StartTLSFrag(serverName string, roots *x509.CertPool, frag int) error {
 	// hand bytes already buffered (none expected) to the TLS layer
 	var under net.Conn = c.Raw
+	if frag > 0 {
+		under = &fragConn{Conn: c.Raw, c: c, first: frag}
+	}
 	if n := c.BR.Buffered(); n > 0 {
 		b, _ := c.BR.Peek(n)
 		under = &peeked{Conn: c.Raw, r: io.MultiReader(strings.NewReader(string(b)), c.Raw)}
